@@ -898,7 +898,8 @@ def fam_reset(rng):
                 [{"op": "set_input_offset", "v": 1 << 63}],
                 [{"op": "set_input_offset", "v": 0}, {"op": "update", "a": 0, "b": 100}]]
     mi = 0
-    # histories that use set_input_offset come last (known open finding: reset() keeps the offset)
+    # histories that use set_input_offset come last and are tagged (finding: reset() keeps the
+    # offset, so count() underflows); once fixed in the tree they simply agree with the model
     for hists in (hist_plain, hist_off):
         for h in hists:
             for k in (0, 1, 1025, 4097):
@@ -954,7 +955,8 @@ def fam_hazmat_fn(rng):
     vs += [rng.randrange(1025, 1 << rng.randrange(11, 64)) for _ in range(20)]
     for v in vs:
         out.append({"kind": "hazmat_fn", "fn": "left_subtree_len", "v": v})
-    # last: known open finding (u64::MAX overflows `input_len + 1`)
+    # last: u64::MAX overflowed `input_len + 1` in the pinned tree (fixed in the working tree since;
+    # the scenario stays, tagged, so that it is only used for obligations about left_subtree_len)
     out.append({"kind": "hazmat_fn", "fn": "left_subtree_len", "v": U64})
     return out
 
@@ -1167,7 +1169,7 @@ TABLE = [
     (r"^crate::join::|Hasher::update_rayon|Hasher::update_mmap", ["rayon_mmap", "incremental"], ["default"], ()),
     (r"^crate::hazmat::(left_subtree_len|max_subtree_len)", ["hazmat_fn", "hazmat_tree", "oneshot"], GENERAL, ()),
     (r"^crate::hazmat::", ["hazmat_ops", "hazmat_tree", "hazmat_fn", "reset"], GENERAL, ()),
-    (r"^crate::OutputReader::|Hasher::finalize_xof|^crate::Output::root_output_block", ["xof", "incremental", "traits"],
+    (r"^crate::OutputReader::|Hasher::finalize_xof|^crate::Output::root_output_block", ["xof", "incremental"],
      GENERAL, ()),
     (r"^crate::Hasher::reset", ["reset", "traits", "incremental"], GENERAL, ()),
     (r"^crate::Hasher::(count|new|new_keyed|new_derive_key|new_internal|default)", ["incremental", "reset", "hazmat_ops"],
@@ -1247,6 +1249,28 @@ def search_family(binp, scratch, scs, deadline, stop_at_first=True):
     return fails, checked, skipped, mach
 
 
+def shrink(sc, m, r, binp, scratch):
+    """cut an operation script after the first disagreeing operation (kept only if it still fails)"""
+    try:
+        mt = re.match(r"(ops|fresh)\[(\d+)\]", m.get("field") or "")
+        if not mt or mt.group(1) != "ops" or sc["kind"] not in ("xof", "ops", "traits"):
+            return sc, m, r
+        i = int(mt.group(2))
+        if i + 1 >= len(sc["ops"]):
+            return sc, m, r
+        sc2 = dict(sc)
+        sc2["ops"] = sc["ops"][:i + 1]
+        sc2.pop("fresh_from", None)
+        low = lower(sc2)
+        res = run_driver(binp, [low], scratch, timeout=30)
+        m2 = check(sc2, low, res[0])
+        if isinstance(m2, dict):
+            return sc2, m2, res[0]
+    except Exception:
+        pass
+    return sc, m, r
+
+
 def _found(sc, m, r, feats, family):
     return {"scenario": sc, "features": list(feats), "family": family, "field": m.get("field"),
             "observed": m.get("observed"), "expected": m.get("expected"),
@@ -1269,16 +1293,14 @@ def find(prop, fo, seed):
         feats_of = {v: tuple(sorted(set(LEVELS[v]) | set(extras))) for v in variants}
         for v in variants[:2]:
             builds.start(feats_of[v])
-        started_rest = False
-        for v in variants:
+        for vi, v in enumerate(variants):
             if time.time() > deadline - 8:
                 log.setdefault("note", "time budget exhausted before variant %s" % v)
                 break
             binp, err = builds.get(feats_of[v])
-            if not started_rest:
-                for w in variants[2:]:
-                    builds.start(feats_of[w])
-                started_rest = True
+            # build one variant ahead while this one is searched
+            if vi >= 1 and vi + 1 < len(variants) and time.time() < deadline - 40:
+                builds.start(feats_of[variants[vi + 1]])
             if not binp:
                 log.setdefault("build_errors", []).append({"variant": v, "error": (err or "")[-1500:]})
                 continue
@@ -1299,6 +1321,7 @@ def find(prop, fo, seed):
                                           "failed": bool(fails)})
                 if fails:
                     sc, m, r = fails[0]
+                    sc, m, r = shrink(sc, m, r, binp, scratch)
                     found = _found(sc, m, r, feats_of[v], fam)
                     break
             if found:
